@@ -29,6 +29,72 @@ CLAIMED = {
          "case is compared byte for byte, and bytes in a foreign element order are decoded by "
          "the implementation.",
          "5 C08"),
+ "C03": ("Lean 4 invariant proof (UUID table = scan, by induction over operations) + per-step "
+         "correspondence of model, code and abstract specification on graph histories",
+         "CacheInv is proved preserved by every public operation of the object-graph model "
+         "(which mirrors the incremental _add_to/_remove_from_uuid_cache mechanism), so "
+         "get_by_uuid equals a fresh scan in every reachable state under the property's "
+         "distinctness hypothesis; the model is compared with the real objects' complete "
+         "observable snapshot after every step of random histories over 2-3 IRs.",
+         "5 C03"),
+ "C04": ("Lean 4 invariant proof (two-ended forest consistency, derived accessors) + per-step "
+         "snapshot correspondence on graph histories",
+         "ForestInv (membership iff back-pointer, no duplicates, rank-correct kinds) is proved "
+         "preserved by every public operation; derived accessors and aggregate iterators are "
+         "proved equal to what the forest implies; tied to the code by the shared graph stream.",
+         "5 C04"),
+ "C05": ("Lean 4 proof (lazy index = current set; lookup = scan) + differential run of every "
+         "edit and lookup against the model and a fresh scan",
+         "Over the model of LazyIntervalTree and the util lookup functions: the index is exact "
+         "after any history (all three branches of get), block lookups at interval scope equal "
+         "the scan with each block once, section scope is characterised exactly (sandwich as "
+         "corollary); tied by edit histories with lookup batches on all scopes and all 18 methods.",
+         "5 C05"),
+ "C06": ("Lean 4 proof (interval lookups and section extents = scan) + differential run",
+         "Same model as C05: byte_intervals_on/at and Section.address/size are proved equal to "
+         "the scan; tied by the same stream with address edits to and from None.",
+         "5 C06"),
+ "C10": ("Lean 4 invariant proof (symbol indexes = scan) + per-step snapshot correspondence",
+         "IndexInv (name and referent index hold exactly the module's symbols under their "
+         "current keys) is proved preserved by every operation incl. the _IndexedAttribute "
+         "setters; symbols_named/references are corollaries; tied by the graph stream with "
+         "renames, payload switches and moves.",
+         "5 C10"),
+ "C11": ("Lean 4 refinement proof (CFG store refines a mathematical set) + per-step correspondence",
+         "Every CFG operation incl. the MutableSet mixins is proved to act on membership as the "
+         "set operation, with KeyError exactly for remove/pop of an absent edge, Nodup invariant "
+         "over histories, adjacency views as filters; tied by histories over attached/detached "
+         "nodes and 5 labels with all candidate memberships probed each step.",
+         "5 C11"),
+ "C12": ("Lean 4 proof (get returns the current set on all branches; schedule independence) + "
+         "metamorphic replay of each history under several lookup schedules",
+         "Answers are proved to be functions of the structure only (lookups preserve the "
+         "structure and the invariant), hence independent of lookup schedule; on the real code "
+         "each history is replayed under 5-7 schedules hitting pending <,=,> size and the final "
+         "battery compared across schedules, with the scan and with the model.",
+         "5 C12"),
+ "C14": ("Lean 4 proof over the table life-cycle model (+ decided counterexample for the false "
+         "corner) + differential run through public load/save over generations",
+         "Untouched tables are proved written back verbatim for any name/bytes over any number "
+         "of generations; read/assigned/retyped tables are proved saved as the encoding of the "
+         "current value under the current name; the unknown-codec clause is proved where "
+         "decoding reaches the unknown head, with a decided counterexample (known finding K4) "
+         "otherwise; tied by random action sequences on real files.",
+         "5 C14"),
+ "C16": ("Lean 4 refinement proofs for the owning collections (content after each wrapper "
+         "operation) + per-step correspondence against built-in list/set and the abstract spec",
+         "The graph model composes the collections.abc mixins as CPython does; the abstract "
+         "specification run side by side is built-in list/set semantics on the content after "
+         "removing inserted nodes from previous owners; non-mutating operators and comparisons "
+         "are checked against plain sets/lists; return values and exception types compared.",
+         "5 C16"),
+ "C19": ("Lean 4 invariant proof (stored bytes <= size over all assignment histories; block "
+         "views) + differential run with save/load",
+         "StoreInv is proved preserved by size / initialized_size assignments and content edits "
+         "from any constructed interval, and equivalent to the loader accepting the saved "
+         "interval; block address/contents/contains_* are characterised; tied by histories on "
+         "real intervals with probes around both ends of each block.",
+         "5 C19"),
 }
 
 _PENDING = "check not built yet in this session (work in progress; see DESIGN.md section 8)"
